@@ -6,19 +6,19 @@ has a `render` that instantiates the `quote!` template.
 -/
 namespace DX
 
-def autoDerived : Toks := attrToks ["automatically_derived"]
+def autoDerived : GToks := genAttr ["automatically_derived"]
 
 
 /-- `impl<G> Trait for Self where … { body }` -/
-def implItem (attrs : Toks) (implG trait_ selfTy wheres body : Toks) : Toks :=
-  attrs ++ "impl" :: implG ++ trait_ ++ "for" :: selfTy ++ wheres ++ brace body
+def implItem (attrs : GToks) (implG trait_ selfTy wheres body : GToks) : GToks :=
+  attrs +++ "impl" ::: implG +++ trait_ +++ "for" ::: selfTy +++ wheres +++ brace body
 
 /-- `<ty as trait>::f` -/
-def ufcs (ty trait_ : Toks) (f : Tok) : Toks := angle (ty ++ "as" :: trait_) ++ ["::", f]
+def ufcs (ty trait_ : GToks) (f : String) : GToks := angle (ty +++ "as" ::: trait_) +++ "::" ::: [mem f]
 
 /-- `match self { arms, }`; with no arms the scrutinee must be a value: `match *self {}` -/
-def matchSelf (arms : List Toks) : Toks :=
-  if arms.isEmpty then ["match", "*", "self", "{", "}"] else "match" :: "self" :: brace (termBy "," arms)
+def matchSelf (arms : List GToks) : GToks :=
+  if arms.isEmpty then ["match", "*", "self", "{", "}"] else "match" ::: "self" ::: brace (termBy "," arms)
 
 /-! ## Operators from a struct -/
 
@@ -60,58 +60,58 @@ def OpsImpl.funcName (o : OpsImpl) : Tok :=
   | _ => ""
 
 /-- `with_ref_type`: `&ty`, a trait object with several bounds parenthesized -/
-def refFieldTy (ty : Ty) (isRef : Bool) : Toks := if isRef then "&" :: ty.parenIfPlus.toks else ty.toks
+def refFieldTy (ty : Ty) (isRef : Bool) : GToks := if isRef then "&" ::: U ty.parenIfPlus.toks else U ty.toks
 
-def OpsImpl.renderForm (o : OpsImpl) (l r : Bool) (w : WCB) : Toks :=
+def OpsImpl.renderForm (o : OpsImpl) (l r : Bool) (w : WCB) : GToks :=
   let trait_ := o.kind.path
   let this := thisTyToks o.name o.generics
-  let implG := o.xgenerics.implToks
+  let implG := U o.xgenerics.implToks
   let fn := o.funcName
   match o.kind with
   | .bin _ =>
     let selfTy := withRef this l
     let rhsTy := withRef this r
     let values := o.fields.map fun f =>
-      let fty := f.field.ty.toks
-      ufcs (refFieldTy f.field.ty l) (trait_ ++ angle (refFieldTy f.field.ty r)) fn ++
-        paren (withRef (memberOf "self" f) l ++ "," :: withRef (memberOf "__rhs" f) r)
+      let fty := U f.field.ty.toks
+      ufcs (refFieldTy f.field.ty l) (trait_ +++ angle (refFieldTy f.field.ty r)) fn +++
+        paren (withRef (memberOf "self" f) l +++ "," ::: withRef (memberOf "__rhs" f) r)
     let wheres := w.build fun ty =>
-      let t := ty.toks
+      let t := U ty.toks
       match l, r with
-      | true, true => "for" :: angle ["'__a"] ++ "&" :: "'__a" :: t ++ ":" :: trait_ ++ angle ("&" :: "'__a" :: t ++ "," :: "Output" :: "=" :: t)
-      | true, false => "for" :: angle ["'__a"] ++ "&" :: "'__a" :: t ++ ":" :: trait_ ++ angle (t ++ "," :: "Output" :: "=" :: t)
-      | false, true => "for" :: angle ["'__a"] ++ t ++ ":" :: trait_ ++ angle ("&" :: "'__a" :: t ++ "," :: "Output" :: "=" :: t)
-      | false, false => t ++ ":" :: trait_ ++ angle (t ++ "," :: "Output" :: "=" :: t)
-    implItem autoDerived implG (trait_ ++ angle rhsTy) selfTy wheres
-      (["type", "Output", "="] ++ this ++ [";", "fn", fn] ++ paren (["self", ",", "__rhs", ":"] ++ rhsTy) ++
-        ["->", "Self", "::", "Output"] ++ brace (o.name :: ctorArgs o.fieldsSrc values))
+      | true, true => "for" ::: angle ["'__a"] +++ "&" ::: "'__a" ::: t +++ ":" ::: trait_ +++ angle ("&" ::: "'__a" ::: t +++ "," ::: mem "Output" ::: "=" ::: t)
+      | true, false => "for" ::: angle ["'__a"] +++ "&" ::: "'__a" ::: t +++ ":" ::: trait_ +++ angle (t +++ "," ::: mem "Output" ::: "=" ::: t)
+      | false, true => "for" ::: angle ["'__a"] +++ t +++ ":" ::: trait_ +++ angle ("&" ::: "'__a" ::: t +++ "," ::: mem "Output" ::: "=" ::: t)
+      | false, false => t +++ ":" ::: trait_ +++ angle (t +++ "," ::: mem "Output" ::: "=" ::: t)
+    implItem autoDerived implG (trait_ +++ angle rhsTy) selfTy wheres
+      (["type", mem "Output", "="] +++ this +++ [";", "fn", mem fn] +++ paren (["self", ",", "__rhs", ":"] +++ rhsTy) +++
+        ["->", "Self", "::", mem "Output"] +++ brace (u o.name ::: ctorArgs o.fieldsSrc values))
   | .assign _ =>
     let rhsTy := withRef this r
     let exprs := o.fields.map fun f =>
-      let fty := f.field.ty.toks
-      ufcs fty (trait_ ++ angle (refFieldTy f.field.ty r)) fn ++
-        paren ("&" :: "mut" :: memberOf "self" f ++ "," :: withRef (memberOf "__rhs" f) r)
+      let fty := U f.field.ty.toks
+      ufcs fty (trait_ +++ angle (refFieldTy f.field.ty r)) fn +++
+        paren ("&" ::: "mut" ::: memberOf "self" f +++ "," ::: withRef (memberOf "__rhs" f) r)
     let wheres := w.build fun ty =>
-      let t := ty.toks
-      if r then "for" :: angle ["'__a"] ++ t ++ ":" :: trait_ ++ angle ("&" :: "'__a" :: t)
-      else t ++ ":" :: trait_ ++ angle t
-    implItem autoDerived implG (trait_ ++ angle rhsTy) this wheres
-      (["fn", fn] ++ paren (["&", "mut", "self", ",", "__rhs", ":"] ++ rhsTy) ++ brace (termBy ";" exprs))
+      let t := U ty.toks
+      if r then "for" ::: angle ["'__a"] +++ t +++ ":" ::: trait_ +++ angle ("&" ::: "'__a" ::: t)
+      else t +++ ":" ::: trait_ +++ angle t
+    implItem autoDerived implG (trait_ +++ angle rhsTy) this wheres
+      (["fn", mem fn] +++ paren (["&", "mut", "self", ",", "__rhs", ":"] +++ rhsTy) +++ brace (termBy ";" exprs))
   | .un _ =>
     let selfTy := withRef this l
     let values := o.fields.map fun f =>
-      let fty := f.field.ty.toks
-      ufcs (refFieldTy f.field.ty l) trait_ fn ++ paren (withRef (memberOf "self" f) l)
+      let fty := U f.field.ty.toks
+      ufcs (refFieldTy f.field.ty l) trait_ fn +++ paren (withRef (memberOf "self" f) l)
     let wheres := w.build fun ty =>
-      let t := ty.toks
-      if l then "for" :: angle ["'__a"] ++ "&" :: "'__a" :: t ++ ":" :: trait_ ++ angle ("Output" :: "=" :: t)
-      else t ++ ":" :: trait_ ++ angle ("Output" :: "=" :: t)
+      let t := U ty.toks
+      if l then "for" ::: angle ["'__a"] +++ "&" ::: "'__a" ::: t +++ ":" ::: trait_ +++ angle (mem "Output" ::: "=" ::: t)
+      else t +++ ":" ::: trait_ +++ angle (mem "Output" ::: "=" ::: t)
     implItem autoDerived implG trait_ selfTy wheres
-      (["type", "Output", "="] ++ this ++ [";", "fn", fn] ++ paren ["self"] ++
-        ["->", "Self", "::", "Output"] ++ brace (o.name :: ctorArgs o.fieldsSrc values))
+      (["type", mem "Output", "="] +++ this +++ [";", "fn", mem fn] +++ paren ["self"] +++
+        ["->", "Self", "::", mem "Output"] +++ brace (u o.name ::: ctorArgs o.fieldsSrc values))
   | _ => []
 
-def OpsImpl.render (o : OpsImpl) : List Toks :=
+def OpsImpl.render (o : OpsImpl) : List GToks :=
   ((opForms o.kind).zip o.wcs).map fun ((l, r), w) => o.renderForm l r w
 
 /-! ## Clone, Copy -/
@@ -142,40 +142,40 @@ def buildCloneEnum (en : ItemEnum) (e : Entry) (variants : List VariantE) : Clon
     v.fields.foldl (fun w f => f.pushBoundsTo u .clone w) w
   { name := en.name, generics := en.generics, wc := w, shape := .enum_ variants }
 
-def cloneTrait : Toks := Kind.clone.path
+def cloneTrait : GToks := Kind.clone.path
 
-def CloneImpl.render (c : CloneImpl) : Toks :=
+def CloneImpl.render (c : CloneImpl) : GToks :=
   let tr := cloneTrait
-  let wheres := c.wc.build fun ty => ty.toks ++ ":" :: tr
+  let wheres := c.wc.build fun ty => U ty.toks +++ ":" ::: tr
   let this := thisTyToks c.name c.generics
-  let body : Toks :=
+  let body : GToks :=
     match c.shape with
     | .struct_ src fields =>
-      let args := fields.map fun f => ufcs f.field.ty.toks tr "clone" ++ paren ("&" :: memberOf "self" f)
+      let args := fields.map fun f => ufcs (U f.field.ty.toks) tr "clone" +++ paren ("&" ::: memberOf "self" f)
       let cfs := fields.map fun f =>
-        ufcs f.field.ty.toks tr "clone_from" ++ paren ("&" :: "mut" :: memberOf "self" f ++ "," :: "&" :: memberOf "__source" f)
-      ["fn", "clone"] ++ paren ["&", "self"] ++ ["->", "Self"] ++ brace (c.name :: ctorArgs src args) ++
-      ["fn", "clone_from"] ++ paren ["&", "mut", "self", ",", "__source", ":", "&", "Self"] ++ brace (termBy ";" cfs)
+        ufcs (U f.field.ty.toks) tr "clone_from" +++ paren ("&" ::: "mut" ::: memberOf "self" f +++ "," ::: "&" ::: memberOf "__source" f)
+      ["fn", mem "clone"] +++ paren ["&", "self"] +++ ["->", "Self"] +++ brace (u c.name ::: ctorArgs src args) +++
+      ["fn", mem "clone_from"] +++ paren ["&", "mut", "self", ",", "__source", ":", "&", "Self"] +++ brace (termBy ";" cfs)
     | .enum_ vs =>
       let armsClone := vs.map fun v =>
         let patL := ctorArgs v.variant.fields (v.fields.map fun f => [f.makeIdent "__l"])
         let args := ctorArgs v.variant.fields (v.fields.map fun f =>
-          ufcs f.field.ty.toks tr "clone" ++ paren [f.makeIdent "__l"])
-        ["Self", "::", v.variant.name] ++ patL ++ ["=>", "Self", "::", v.variant.name] ++ args
+          ufcs (U f.field.ty.toks) tr "clone" +++ paren [f.makeIdent "__l"])
+        ["Self", "::", u v.variant.name] +++ patL +++ ["=>", "Self", "::", u v.variant.name] +++ args
       let armsFrom := vs.map fun v =>
         let patL := ctorArgs v.variant.fields (v.fields.map fun f => [f.makeIdent "__l"])
         let patR := ctorArgs v.variant.fields (v.fields.map fun f => [f.makeIdent "__r"])
         let cfs := v.fields.map fun f =>
-          ufcs f.field.ty.toks tr "clone_from" ++ paren [f.makeIdent "__l", ",", f.makeIdent "__r"]
-        paren (["Self", "::", v.variant.name] ++ patL ++ [",", "Self", "::", v.variant.name] ++ patR) ++
-          "=>" :: brace (termBy ";" cfs)
-      ["fn", "clone"] ++ paren ["&", "self"] ++ ["->", "Self"] ++
-        brace (matchSelf armsClone) ++
-      ["fn", "clone_from"] ++ paren ["&", "mut", "self", ",", "__source", ":", "&", "Self"] ++
-        brace ("match" :: paren ["self", ",", "__source"] ++ brace (termBy "," armsFrom ++
-          paren ["__lhs", ",", "__rhs"] ++ ["=>", "*", "__lhs", "="] ++ ufcs ["Self"] (absPath ["core", "clone", "Clone"]) "clone" ++
-            paren ["__rhs"] ++ [","]))
-  implItem autoDerived c.generics.implToks tr this wheres body
+          ufcs (U f.field.ty.toks) tr "clone_from" +++ paren [f.makeIdent "__l", ",", f.makeIdent "__r"]
+        paren (["Self", "::", u v.variant.name] +++ patL +++ [",", "Self", "::", u v.variant.name] +++ patR) +++
+          "=>" ::: brace (termBy ";" cfs)
+      ["fn", mem "clone"] +++ paren ["&", "self"] +++ ["->", "Self"] +++
+        brace (matchSelf armsClone) +++
+      ["fn", mem "clone_from"] +++ paren ["&", "mut", "self", ",", "__source", ":", "&", "Self"] +++
+        brace ("match" ::: paren ["self", ",", "__source"] +++ brace (termBy "," armsFrom +++
+          paren ["__lhs", ",", "__rhs"] +++ ["=>", "*", "__lhs", "="] +++ ufcs ["Self"] (absPath ["core", "clone", "Clone"]) "clone" +++
+            paren ["__rhs"] +++ [","]))
+  implItem autoDerived (U c.generics.implToks) tr this wheres body
 
 structure CopyImpl where
   name : String
@@ -196,10 +196,10 @@ def buildCopyEnum (en : ItemEnum) (e : Entry) (variants : List VariantE) : CopyI
       let (w, u) := v.h.pushBoundsToRaw use false .copy w
       v.fields.foldl (fun w f => f.pushBoundsTo u .copy w) w }
 
-def CopyImpl.render (c : CopyImpl) : Toks :=
+def CopyImpl.render (c : CopyImpl) : GToks :=
   let tr := Kind.copy.path
-  implItem autoDerived c.generics.implToks tr (thisTyToks c.name c.generics)
-    (c.wc.build fun ty => ty.toks ++ ":" :: tr) []
+  implItem autoDerived (U c.generics.implToks) tr (thisTyToks c.name c.generics)
+    (c.wc.build fun ty => U ty.toks +++ ":" ::: tr) []
 
 /-! ## Debug -/
 
@@ -275,27 +275,27 @@ def buildDebugEnum (en : ItemEnum) (e : Entry) (h : HAttrs) (variants : List Var
 /-- a name as the string literal the generated code prints (raw-identifier prefix dropped) -/
 def nameLit (t : Tok) : Tok := "\"" ++ unraw t ++ "\""
 
-def DebugExpr.render (toExpr : FieldE → Toks) : DebugExpr → Toks
-  | .transparent f => absPath ["core", "fmt", "Debug", "fmt"] ++ paren (toExpr f ++ [",", "__f"])
+def DebugExpr.render (toExpr : FieldE → GToks) : DebugExpr → GToks
+  | .transparent f => absPath ["core", "fmt", "Debug", "fmt"] +++ paren (toExpr f +++ [",", "__f"])
   | .builder named ident fields =>
-    ["__f", ".", if named then "debug_struct" else "debug_tuple"] ++ paren [nameLit ident] ++
+    ["__f", ".", mem (if named then "debug_struct" else "debug_tuple")] +++ paren [nameLit ident] +++
       (fields.flatMap fun f =>
-        if named then [".", "field"] ++ paren (nameLit f.member :: "," :: toExpr f)
-        else [".", "field"] ++ paren (toExpr f)) ++
-      [".", "finish", "(", ")"]
+        if named then [".", mem "field"] +++ paren (nameLit f.member ::: "," ::: toExpr f)
+        else [".", mem "field"] +++ paren (toExpr f)) +++
+      [".", mem "finish", "(", ")"]
 
-def DebugImpl.render (d : DebugImpl) : Toks :=
+def DebugImpl.render (d : DebugImpl) : GToks :=
   let tr := Kind.debug.path
-  let body : Toks := match d.body with
+  let body : GToks := match d.body with
     | .struct_ x => x.render fun f =>
-        if d.unsizedLast == some f.index then ["&", "&", "self", ".", f.member] else ["&", "self", ".", f.member]
+        if d.unsizedLast == some f.index then ["&", "&", "self", ".", u f.member] else ["&", "self", ".", u f.member]
     | .enum_ arms =>
       matchSelf (arms.map fun (v, x) =>
-        v.makePat "__field" ++ "=>" :: x.render fun f => [f.makeIdent "__field"])
-  implItem autoDerived d.generics.implToks tr (thisTyToks d.name d.generics)
-    (d.wc.build fun ty => ty.toks ++ ":" :: tr)
-    (["fn", "fmt"] ++ paren (["&", "self", ",", "__f", ":", "&", "mut"] ++ absPath ["core", "fmt", "Formatter"]) ++
-      "->" :: absPath ["core", "fmt", "Result"] ++ brace body)
+        v.makePat "__field" +++ "=>" ::: x.render fun f => [f.makeIdent "__field"])
+  implItem autoDerived (U d.generics.implToks) tr (thisTyToks d.name d.generics)
+    (d.wc.build fun ty => U ty.toks +++ ":" ::: tr)
+    (["fn", mem "fmt"] +++ paren (["&", "self", ",", "__f", ":", "&", "mut"] +++ absPath ["core", "fmt", "Formatter"]) +++
+      "->" ::: absPath ["core", "fmt", "Result"] +++ brace body)
 
 /-! ## Default -/
 
@@ -363,21 +363,21 @@ def buildDefaultEnum (en : ItemEnum) (e : Entry) (h : HAttrs) (variants : List V
     pure { name := en.name, generics := en.generics, wc := w,
            body := .ctor [en.name, "::", v.variant.name] v.variant.fields vals }
 
-def DefVal.render : DefVal → Toks
-  | .into ty e => absPath ["core", "convert", "Into"] ++ "::" :: angle ty.toks ++ "::" :: "into" :: paren e
-  | .raw e _ => e
-  | .dflt ty => ufcs ty.toks Kind.dflt.path "default" ++ ["(", ")"]
+def DefVal.render : DefVal → GToks
+  | .into ty e => absPath ["core", "convert", "Into"] +++ "::" ::: angle (U ty.toks) +++ "::" ::: mem "into" ::: paren (U e)
+  | .raw e _ => U e
+  | .dflt ty => ufcs (U ty.toks) Kind.dflt.path "default" +++ ["(", ")"]
 
-def DefaultImpl.render (d : DefaultImpl) : Toks :=
+def DefaultImpl.render (d : DefaultImpl) : GToks :=
   let tr := Kind.dflt.path
-  let value : Toks := match d.body with
+  let value : GToks := match d.body with
     -- a type-level value is the tail expression of `fn default()`: parenthesized if it starts with a block-like expression
-    | .value (.raw e true) => paren e
+    | .value (.raw e true) => paren (U e)
     | .value v => v.render
-    | .ctor path src vals => path ++ ctorArgs src (vals.map DefVal.render)
-  implItem autoDerived d.generics.implToks tr (thisTyToks d.name d.generics)
-    (d.wc.build fun ty => ty.toks ++ ":" :: tr)
-    (["fn", "default", "(", ")", "->", "Self"] ++ brace value)
+    | .ctor path src vals => U path +++ ctorArgs src (vals.map DefVal.render)
+  implItem autoDerived (U d.generics.implToks) tr (thisTyToks d.name d.generics)
+    (d.wc.build fun ty => U ty.toks +++ ":" ::: tr)
+    (["fn", mem "default", "(", ")", "->", "Self"] +++ brace value)
 
 /-! ## Deref / DerefMut -/
 
@@ -396,19 +396,19 @@ def buildDeref (kind : Kind) (s : ItemStruct) (e : Entry) (fields : List FieldE)
   | [f] => pure { mut_ := kind == .derefMut, name := s.name, generics := s.generics, wc := w, field := f }
   | _ => bail
 
-def DerefImpl.render (d : DerefImpl) : Toks :=
+def DerefImpl.render (d : DerefImpl) : GToks :=
   let tr := if d.mut_ then Kind.derefMut.path else Kind.deref.path
-  let ty := d.field.field.ty.toks
-  let content : Toks :=
+  let ty := U d.field.field.ty.toks
+  let content : GToks :=
     -- the return type is spelled as the trait's `Target` (a bare trait object as field type would
     -- otherwise get the reference's lifetime as its object lifetime)
-    let target : Toks := angle (["Self", "as"] ++ Kind.deref.path) ++ ["::", "Target"]
+    let target : GToks := angle (["Self", "as"] +++ Kind.deref.path) +++ ["::", mem "Target"]
     if d.mut_ then
-      ["fn", "deref_mut"] ++ paren ["&", "mut", "self"] ++ ["->", "&", "mut"] ++ target ++ brace ["&", "mut", "self", ".", d.field.member]
+      ["fn", mem "deref_mut"] +++ paren ["&", "mut", "self"] +++ ["->", "&", "mut"] +++ target +++ brace ["&", "mut", "self", ".", u d.field.member]
     else
-      ["type", "Target", "="] ++ ty ++ [";", "fn", "deref"] ++ paren ["&", "self"] ++ ["->", "&"] ++ target ++
-        brace ["&", "self", ".", d.field.member]
-  implItem autoDerived d.generics.implToks tr (thisTyToks d.name d.generics)
-    (d.wc.build fun t => t.toks ++ ":" :: tr) content
+      ["type", mem "Target", "="] +++ ty +++ [";", "fn", mem "deref"] +++ paren ["&", "self"] +++ ["->", "&"] +++ target +++
+        brace ["&", "self", ".", u d.field.member]
+  implItem autoDerived (U d.generics.implToks) tr (thisTyToks d.name d.generics)
+    (d.wc.build fun t => U t.toks +++ ":" ::: tr) content
 
 end DX
